@@ -332,7 +332,12 @@ class Application(object):
             if not isinstance(ret, HTTPException):
                 # TODO: verify behavior
                 break
-            if not getattr(ret, 'source_route', None):
+            src_route = getattr(ret, 'source_route', None)
+            if not src_route or not any([src_route is r for r in
+                                         self.routes + [self._null_route]]):
+                # also when the error object has been through another
+                # application before (an error instance made once and
+                # raised or returned again): this application renders it
                 ret.source_route = route
             if getattr(ret, 'is_breaking', True):
                 break
